@@ -53,6 +53,7 @@ def terms_over(draw, idx_pool, size, nmax, ntypes):
 def case(draw, chain=False):
     base = draw(repl.replace_case(repl_kinds=["smaller", "equal", "larger", "larger", "identical", "disjoint"], fractions=False,
                                   max_copies=3, decoys=False, max_atoms=5,
+                                  cell_classes=["ortho", "ortho", "tilt", "tilt", "tilt-neg", "tilt-small"],   # LAMMPS-writable
                                   pattern_classes=["generic", "generic", "generic", "chiral", "planar", "rod", "single", "near-collinear"]))
     n = len(base["ppos"])
     N = len(base["sels"])
